@@ -4,7 +4,9 @@ CONSTANTS
   MaxVotes = 10000
   MaxParts = 1601
   Weak_BitArrayOpsAssumeEqualSize = TRUE
+  Weak_LastCommitNilDeref = FALSE
+  Weak_SetRoundRecreatesRound = FALSE
 INIT TInit
 NEXT TNext
-INVARIANTS TargetedNoCrash
+INVARIANTS TargetedNoCrash TargetedNoHalt
 CHECK_DEADLOCK FALSE
